@@ -231,6 +231,15 @@ def stype_name(stype, schema):
                 if all(o == c or o.issubclass(schema, c) for o in ms):
                     return str(c.get_name(schema))
             return 'union<' + ', '.join(sorted(str(c.get_name(schema)) for c in ms)) + '>'
+        comps = mt.get_intersection_of(schema).objects(schema)
+        if comps:
+            # an intersection type (view & A2): its values belong to the
+            # component that descends from every other one
+            ms = [c.material_type(schema)[1] for c in comps]
+            for c in ms:
+                if all(o == c or c.issubclass(schema, o) for o in ms):
+                    return str(c.get_name(schema))
+            return 'intersection<' + ', '.join(sorted(str(c.get_name(schema)) for c in ms)) + '>'
     return str(mt.get_name(schema))
 
 
